@@ -64,11 +64,12 @@ def gen_props(rng, kind, pstd=0.6):
     return p
 
 
-def gen_spec(rng, profile="full"):
+def gen_spec(rng, profile="full", kind=None):
     """A field skeleton.  profile 'core' keeps to the fragment the Coq model covers."""
     core = profile == "core"
     names = NamePool(rng)
-    kind = "domain" if rng.random() < 0.15 else "field"
+    r0 = rng.random()
+    kind = kind or ("domain" if r0 < 0.15 else "field")
     nax = rng.choice([0, 1, 1, 2, 2, 2, 3, 3, 4])
     base = rng.choice([1, 2, 3, 5])
     sizes = [base if rng.random() < 0.4 else rng.choice([1, 2, 3, 5]) for _ in range(nax)]
@@ -298,6 +299,62 @@ def gen_bounds(rng, names, c):
 
 
 # ---------------------------------------------------------------- directed families (second deepening pass)
+STR_NAMES = ["platform_name", "region", "area_type", "station_wmo_id"]
+
+
+def gen_scalar_string(rng):
+    """A field with string-valued auxiliary coordinates alone on size-1 axes that the data do not span (written as
+    scalar coordinate variables: netCDF strings with fmt NETCDF4 + string=True, char arrays otherwise), beside
+    numeric scalar dimension coordinates and string coordinates over the data axes.  Inside the Coq model."""
+    names = NamePool(rng)
+    nd = rng.choice([0, 1, 1, 2])
+    nsc = rng.choice([1, 1, 2, 3])
+    axes = [{"size": rng.choice([2, 3, 5]), "ncdim": names.draw(DIM_NAMES, 0.4), "unlimited": False} for _ in range(nd)]
+    axes += [{"size": 1, "ncdim": None, "unlimited": False} for _ in range(nsc)]
+    order = list(range(nd + nsc))
+    rng.shuffle(order)                       # the scalar axes anywhere among the axes
+    axes = [axes[i] for i in order]
+    span = [i for i, a in enumerate(axes) if a["size"] > 1]
+    scal = [i for i, a in enumerate(axes) if a["size"] == 1]
+    rng.shuffle(span)
+    spec = {"kind": "field", "props": gen_props(rng, "field", 0.7), "ncvar": names.draw(VAR_NAMES, 0.5), "axes": axes,
+            "cons": [], "cms": [], "refs": [],
+            "data": {"axes": span, "dtype": rng.choice(["f8", "f4", "i4", "i2"]), "mask": rng.random() < 0.3}}
+    for k in ("valid_range",):
+        spec["props"].pop(k, None)
+    cons = spec["cons"]
+
+    def sprops():
+        p = {}
+        if rng.random() < 0.6:
+            p["standard_name"] = rng.choice(STR_NAMES)
+        if rng.random() < 0.5 or not p:
+            p["long_name"] = rng.choice(["station name", "a long name", "x"])
+        return p
+
+    for a in span:
+        if rng.random() < 0.7:
+            cons.append({"type": "dim", "axes": [a], "props": gen_props(rng, "dim"), "dtype": rng.choice(["f8", "f4", "i4"]),
+                         "ncvar": axes[a]["ncdim"] if rng.random() < 0.5 else None, "mask": False})
+        if rng.random() < 0.4:
+            cons.append({"type": "aux", "axes": [a], "props": sprops(), "dtype": "S", "ncvar": names.draw(VAR_NAMES, 0.5),
+                         "mask": False})
+    for k, a in enumerate(scal):
+        if k == 0 or rng.random() < 0.6:
+            cons.append({"type": "aux", "axes": [a], "props": sprops(), "dtype": "S", "ncvar": names.draw(VAR_NAMES, 0.5),
+                         "mask": False})
+        else:
+            cons.append({"type": "dim", "axes": [a], "props": gen_props(rng, "dim"), "dtype": rng.choice(["f8", "i4"]),
+                         "ncvar": names.draw(VAR_NAMES, 0.4), "mask": False})
+    for c in cons:
+        for k in ("valid_range", "flag_values", "flag_meanings"):
+            if c["dtype"] == "S":
+                c["props"].pop(k, None)
+    if rng.random() < 0.3 and scal:
+        spec["cms"].append({"axes": [rng.choice(scal)], "method": "point", "quals": {}})
+    return spec
+
+
 SQ_NAMES = [("projection_y_coordinate", "projection_x_coordinate"), ("grid_latitude", "grid_longitude"),
             ("latitude", "longitude"), (None, None)]
 
@@ -519,6 +576,152 @@ def gen_compressed(rng):
     return cs, o
 
 
+# ---------------------------------------------------------------- options x families
+# every value of every boolean / enumerated option of cfdm.write that is documented as lossless and of cfdm.read, crossed
+# with every family of base construct: each (value, family) pair in the quick tier, each (value, value, family) triple of
+# two different options in the thorough tier.  Not crossed: datatype, least_significant_digit, omit_data (not lossless),
+# mode (append is another property), cfa / storage_options / verbose (no effect on the construct), mask=False,
+# unpack=False and extra (they change what is read by design), external (part of the `external' family).
+W_OPTS = [("fmt", FORMATS), ("string", [True, False]), ("compress", [0, 4]), ("shuffle", [True, False]),
+          ("fletcher32", [False, True]), ("endian", ["native", "little", "big"]), ("group", [True, False]),
+          ("coordinates", [False, True]), ("hdf5_chunks", ["4 MiB", "contiguous", "1 KiB", 64]),
+          ("warn_valid", [True, False])]
+R_OPTS = [("netcdf_backend", [None, "netCDF4", "h5netcdf"]), ("warnings", [False, True]), ("r_warn_valid", [False, True]),
+          ("store_hdf5_chunks", [True, False])]
+W_DEFAULT = {"fmt": "NETCDF4", "string": True, "compress": 0, "shuffle": True, "fletcher32": False, "endian": "native",
+             "group": True, "coordinates": False, "hdf5_chunks": "4 MiB", "warn_valid": True}
+R_DEFAULT = {"netcdf_backend": None, "warnings": False, "r_warn_valid": False, "store_hdf5_chunks": True}
+FAMILIES = ["plain", "scalar-string", "gathered", "contiguous", "indexed", "indexed_contiguous", "geometry",
+            "formula-terms", "trajectory", "external", "grouped", "domain"]
+
+
+def legal_options(a):
+    """netCDF / HDF5 library rules, not cfdm's: filters, byte order and chunking exist in the netCDF-4 formats only;
+    contiguous storage takes no filter; h5netcdf reads HDF5 files only."""
+    nc4 = a["fmt"] in ("NETCDF4", "NETCDF4_CLASSIC")
+    if not nc4 and (a["compress"] or a["fletcher32"] or a["shuffle"] is False or a["endian"] != "native"
+                    or a["hdf5_chunks"] != "4 MiB" or a["netcdf_backend"] == "h5netcdf" or a["store_hdf5_chunks"] is False):
+        return False
+    if a["hdf5_chunks"] == "contiguous" and (a["compress"] or a["fletcher32"]):
+        return False
+    return True
+
+
+def split_options(a):
+    o = {k: v for k, v in a.items() if k in W_DEFAULT and v != W_DEFAULT[k]}
+    if a["hdf5_chunks"] == "contiguous":
+        o["shuffle"] = False
+    rd = {}
+    for k, v in a.items():
+        if k in R_DEFAULT and v != R_DEFAULT[k]:
+            rd["warn_valid" if k == "r_warn_valid" else k] = v
+    return o, rd
+
+
+def make_classic(spec):
+    """netCDF-3 / classic data model: no 64-bit or unsigned integers (u1 apart), no unlimited axis beside others."""
+    def fix(d):
+        return d if d in CLASSIC_DTYPES else ("i4" if d[0] in "iu" else "f8")
+    if spec.get("data"):
+        spec["data"]["dtype"] = fix(spec["data"]["dtype"])
+    for c in spec["cons"]:
+        c["dtype"] = fix(c.get("dtype", "f8"))
+    for a in spec["axes"]:
+        a["unlimited"] = False
+    return spec
+
+
+def family_case(rng, fam, a):
+    """A case of the family, fit for the option assignment a."""
+    classic = a["fmt"] != "NETCDF4"
+    o, rd = split_options(a)
+    c = {"options": o, "read": rd, "fam": "matrix:" + fam}
+    if fam in ("geometry", "formula-terms", "trajectory"):
+        c["example"] = {"geometry": 6, "formula-terms": 1, "trajectory": 11}[fam]
+        return c
+    if fam in ("gathered", "contiguous", "indexed", "indexed_contiguous"):
+        for _ in range(200):
+            cs, _o = gen_compressed(rng)
+            if cs["ckind"] == fam and cs["origin"] == "api":
+                break
+        if fam == "gathered":
+            # a dimension coordinate on every axis, the gathered ones included (coordinates=True names them)
+            have = {tuple(x["over"]) for x in cs["cons"] if x["type"] == "dim"}
+            for i in range(len(cs["shape"])):
+                if (i,) not in have:
+                    cs["cons"].append({"type": "dim", "over": [i], "comp": False, "props": {"long_name": "d%d" % i},
+                                       "dtype": "f8", "mask": False})
+        c["cs"] = cs
+        return c
+    if fam == "scalar-string":
+        spec = limit_string_scalars(rng, gen_scalar_string(rng), {} if a["netcdf_backend"] != "h5netcdf" else {"string": False})
+    elif fam == "domain":
+        spec = gen_spec(rng, "core", kind="domain")
+    else:
+        spec = gen_spec(rng, "core", kind="field")
+    if classic or a["hdf5_chunks"] == "contiguous":
+        make_classic(spec) if classic else [ax.update(unlimited=False) for ax in spec["axes"]]
+    if fam == "external":
+        sp = spanned(spec)
+        if sp:
+            ax = rng.sample(sorted(sp), min(2, len(sp)))
+            spec["cons"].append({"type": "measure", "axes": ax, "props": {"units": "km2"}, "ncvar": rng.choice(["ext1", "ext2", "areacella"]),
+                                 "dtype": "f8", "mask": False, "measure": "area", "external": True})
+            o["external_file"] = True
+    if fam == "grouped" and a["fmt"] != "NETCDF4":
+        o["group"] = False          # groups exist in the NETCDF4 format only: the dataset has to be flattened
+    if fam == "grouped":
+        # the data variable in a sub-group, dimensions and coordinate variables in the root (always a valid dataset);
+        # an auxiliary coordinate / cell measure / ancillary in the same group or in the parent group
+        gp = rng.choice([["forecast"], ["forecast", "model"]])
+        spec["groups"] = {"field": gp, "cons": {}}
+        for j, x in enumerate(spec["cons"]):
+            if x["type"] in ("aux", "measure", "fanc") and rng.random() < 0.5:
+                spec["groups"]["cons"][str(j)] = gp[:rng.randint(1, len(gp))]
+    c["spec"] = spec
+    return c
+
+
+def gen_matrix(rng, thorough):
+    opts = W_OPTS + R_OPTS
+    base = dict(W_DEFAULT)
+    base.update(R_DEFAULT)
+    cases, pairs = [], {}
+    for fam in FAMILIES:
+        assigns = []
+        if thorough:
+            for i, (ka, va) in enumerate(opts):
+                for kb, vb in opts[i + 1:]:
+                    for x in va:
+                        for y in vb:
+                            assigns.append({ka: x, kb: y})
+        else:
+            for ka, va in opts:
+                for x in va:
+                    asg = {ka: x}
+                    if rng.random() < 0.5:
+                        kb, vb = rng.choice([t for t in opts if t[0] != ka])
+                        asg[kb] = rng.choice(vb)
+                    assigns.append(asg)
+        for asg in assigns:
+            a = dict(base)
+            a.update(asg)
+            if not legal_options(a):
+                # drop the random second option of the quick tier rather than the pair under test
+                if not thorough and len(asg) == 2:
+                    a = dict(base)
+                    a.update({k: v for k, v in list(asg.items())[:1]})
+                if not legal_options(a):
+                    pairs.setdefault("illegal", set()).add(tuple(sorted((k, str(v)) for k, v in asg.items())))
+                    continue
+            if fam == "domain" and False:
+                continue
+            cases.append(family_case(rng, fam, a))
+            for k, v in asg.items():
+                pairs.setdefault(fam, set()).add((k, str(v)))
+    return cases, pairs
+
+
 def spec_dtypes(spec):
     d = set()
     if spec.get("data"):
@@ -687,6 +890,16 @@ def expected_findings(spec, opts):
     if any(ac[a] and ac[a] == ac[b] and spec["axes"][a]["size"] == spec["axes"][b]["size"]
            for a in range(len(ac)) for b in range(a)):
         out.append("twin-axes:equals-cannot-pair-indistinguishable-axes")
+    # flattening a grouped dataset parsed cell_methods into a dict keyed by axis name: a name that occurs twice lost
+    # its first method (repaired by C01-fix3-5)
+    toks = [a for cm in spec["cms"] for a in cm["axes"]]
+    if spec.get("groups") and opts.get("group", True) is not False and len(toks) > len(set(map(str, toks))):
+        out.append("grouped:cell-methods-naming-an-axis-twice-misread")
+    # netCDF-C 4.9.3 / HDF5 1.14.6: a dataset is open; its netCDF-string variables are read through further handles
+    # (what cfdm.read does for string-valued scalar coordinate variables): the third one crashes the interpreter
+    if n_string_scalars(spec) >= 3 and opts.get("fmt", "NETCDF4") == "NETCDF4" and opts.get("string", True) and \
+            (opts.get("read") or {}).get("netcdf_backend") != "h5netcdf":
+        out.insert(0, "three-netcdf-string-scalar-coordinates-crash-the-netcdf-library")
     # size-1 axes that the data do not span
     for a in range(len(spec["axes"])):
         if a in sp:
@@ -698,7 +911,9 @@ def expected_findings(spec, opts):
         elif dims and len(on) >= 2:
             out.append("unspanned-size1-axis:data-gain-a-dimension")
         elif not dims:
-            if len(on) == 1 and on[0]["type"] == "aux" and on[0]["axes"] == [a] and on[0]["dtype"] != "S":
+            if len(on) == 1 and on[0]["type"] == "aux" and on[0]["axes"] == [a] and on[0]["dtype"] == "S":
+                pass    # a string-valued scalar coordinate variable is read as an auxiliary coordinate: exact round trip
+            elif len(on) == 1 and on[0]["type"] == "aux" and on[0]["axes"] == [a]:
                 out.append("unspanned-size1-axis:auxiliary-becomes-dimension-coordinate")
             elif all(c["type"] == "aux" and c["axes"] == [a] for c in on):
                 out.append("unspanned-size1-axis:several-scalar-coordinates")
@@ -752,6 +967,7 @@ SIG_SYMPTOMS = {
 
 # classes repaired by handoff/C01-fix2-*.diff (status fixed-pending): not expected to manifest on the repaired tree
 FIXED = {
+    "grouped:cell-methods-naming-an-axis-twice-misread",           # C01-fix3-5
     "endian-big-read-back-dtype-not-equal",                        # C01-fix2-4
     "bounds-property-inherited-from-parent-dropped",               # C01-fix2-5, -7
     "where-over-cell-method-taken-as-climatology",                 # C01-fix2-6
@@ -841,7 +1057,7 @@ def build_cases(chk):
     T = chk.tier == "thorough"
     cases = []
     # corpus: the public example fields (incl. DSG 3-5, geometry 6, field 7) and their domains
-    for n in range(8):
+    for n in list(range(8)) + [11]:      # (8-10 are UGRID fields: the writer refuses them, NotImplementedError)
         for o in (EXAMPLE_OPTIONS if T else EXAMPLE_OPTIONS[:8]):
             if n in (3, 4, 5, 6) and o.get("fmt", "NETCDF4") != "NETCDF4" and False:
                 continue
@@ -852,6 +1068,9 @@ def build_cases(chk):
         cases.append({"spec": copy.deepcopy(spec), "options": dict(o), "fam": "corpus"})
     cases.append({"spec": copy.deepcopy(F01M), "options": {}, "fam": "corpus",
                   "expect_attr": ["air_temperature", "cell_methods", "longitude: mean"]})
+    cases.append({"spec": copy.deepcopy(CRASH3), "options": {}, "fam": "corpus"})                      # crashes (open finding)
+    cases.append({"spec": copy.deepcopy(CRASH3), "options": {"string": False}, "fam": "corpus"})      # does not
+    cases.append({"spec": copy.deepcopy(CRASH3), "options": {}, "read": {"netcdf_backend": "h5netcdf"}, "fam": "corpus"})
     nfull, ncore = (2400, 1500) if T else (420, 330)
     for _ in range(nfull):
         spec = gen_spec(rng, "full")
@@ -882,7 +1101,25 @@ def build_cases(chk):
             o = gen_options(rng, spec)
             o.pop("endian", None)
         cases.append({"spec": spec, "options": o, "fam": "core"})
+    # string-valued scalar coordinates x every format x string option
+    for fmt in FORMATS:
+        for st in (True, False):
+            for _ in range(6 if T else 2):
+                spec = make_classic(gen_scalar_string(rng)) if fmt != "NETCDF4" else gen_scalar_string(rng)
+                o = {} if fmt == "NETCDF4" else {"fmt": fmt}
+                if not st:
+                    o["string"] = False
+                if rng.random() < 0.3:
+                    o["coordinates"] = True
+                cases.append({"spec": limit_string_scalars(rng, spec, o), "options": o, "fam": "scalar-string"})
+    mcases, pairs = gen_matrix(rng, T)
+    cases += mcases
+    MATRIX_PAIRS.clear()
+    MATRIX_PAIRS.update({k: sorted(v) for k, v in pairs.items()})
     return cases
+
+
+MATRIX_PAIRS = {}
 
 
 # F01m: a scalar auxiliary coordinate was registered under the LAST domain axis of the field, so a cell
@@ -895,6 +1132,12 @@ F01M = {"kind": "field", "props": {"standard_name": "air_temperature"}, "ncvar":
         "cms": [{"axes": [1], "method": "mean", "quals": {}}], "refs": []}
 
 # minimised earlier failures (spec, options); each is a witness through the public API
+CRASH3 = {"kind": "field", "props": {"long_name": "a"}, "ncvar": None,
+          "axes": [{"size": 5, "ncdim": None, "unlimited": False}] + [{"size": 1, "ncdim": None, "unlimited": False}] * 3,
+          "data": {"axes": [0], "dtype": "f8", "mask": False},
+          "cons": [{"type": "aux", "axes": [k], "props": {"long_name": "s%d" % k}, "dtype": "S", "ncvar": None, "mask": False}
+                   for k in (1, 2, 3)], "cms": [], "refs": []}
+
 CORPUS = [
     # F01b: a netCDF dimension name set on a domain axis was replaced by the coordinate's standard name
     ({"kind": "field", "props": {"standard_name": "air_temperature"}, "ncvar": "ta",
@@ -930,7 +1173,7 @@ def oracle(chk, cases, rows, stats):
             if len(stats["not-buildable-examples"]) < 4:
                 stats["not-buildable-examples"].append(fam + ": " + r["build_err"][:160])
             continue
-        exp = expected_findings(c["spec"], c["options"]) if "spec" in c else (
+        exp = expected_findings(c["spec"], dict(c["options"], read=c.get("read"))) if "spec" in c else (
             ["endian-big-read-back-dtype-not-equal"] if c["options"].get("endian") == "big" else [])
         if "cs" in c and c["cs"]["ckind"] == "indexed" and c["cs"]["origin"] == "api" and (c["cs"].get("names") or {}).get("sample"):
             exp.append("index-variable-sample-dimension-name")                 # repaired by C01-fix3-1
@@ -954,7 +1197,7 @@ def oracle(chk, cases, rows, stats):
                       "observed": r["pre_fail"]})
         if "crash" in r:
             explained.add(c["i"])
-            chk.fail("property", "worker-crash", f"the interpreter died while writing/reading: {r['crash'][:120]}",
+            chk.fail("property", exp[0] if exp and exp[0].startswith("three-netcdf-string") else "worker-crash", f"the interpreter died while writing/reading: {r['crash'][:120]}",
                      {"input": c, "expected": "a round trip", "observed": r})
             continue
         if "harness_err" in r and "n_read" not in r:
@@ -1027,20 +1270,54 @@ def str_width(shape_n, base, mask=False):
     return max(len(WORDS[(base + j) % len(WORDS)] + str((base + j) % 3)) for j in range(n) if j != hidden)
 
 
+def scalar_string_aux(spec, c):
+    """A string-valued 1-d auxiliary coordinate that is the only construct of a size-1 axis the data do not span:
+    written as a scalar coordinate variable (netCDF string or char), read back as an auxiliary coordinate."""
+    if c["type"] != "aux" or c.get("dtype") != "S" or len(c["axes"]) != 1 or c.get("bounds"):
+        return False
+    a = c["axes"][0]
+    return a not in spanned(spec) and sum(1 for x in spec["cons"] if a in x["axes"]) == 1
+
+
+def n_string_scalars(spec):
+    sp = spanned(spec)
+    return sum(1 for c in spec["cons"] if c["type"] == "aux" and c.get("dtype") == "S" and len(c["axes"]) == 1
+               and c["axes"][0] not in sp)
+
+
+def limit_string_scalars(rng, spec, opts):
+    """At most two netCDF-string scalar coordinates (see three-netcdf-string-scalar-coordinates-...): the others become
+    numeric scalar dimension coordinates."""
+    if opts.get("fmt", "NETCDF4") != "NETCDF4" or opts.get("string", True) is False:
+        return spec
+    sp, k = spanned(spec), 0
+    for c in spec["cons"]:
+        if c["type"] == "aux" and c.get("dtype") == "S" and len(c["axes"]) == 1 and c["axes"][0] not in sp:
+            k += 1
+            if k > 2:
+                c.update({"type": "dim", "dtype": "f8", "props": {"long_name": c["props"].get("long_name", "x")}})
+    return spec
+
+
+def has_scalar_string_aux(spec):
+    return any(scalar_string_aux(spec, c) for c in spec["cons"])
+
+
 def in_model(spec, opts):
     """Is this case inside the fragment the Coq model covers?"""
-    if spec["kind"] != "field" or spec["refs"] or (spec["data"] or {}).get("dtype") == "S":
+    if spec["kind"] != "field" or spec["refs"] or (spec["data"] or {}).get("dtype") == "S" or spec.get("groups"):
         return False
     sp = spanned(spec)
     for c in spec["cons"]:
         if c["type"] not in ("dim", "aux", "measure", "fanc") or c.get("external") or c.get("climatology") or c.get("nodata"):
             return False
-        if c["type"] != "dim" and any(a not in sp for a in c["axes"]):
+        if c["type"] != "dim" and any(a not in sp for a in c["axes"]) and not scalar_string_aux(spec, c):
             return False
         if c.get("bounds") and c["bounds"]["props"]:
             return False
     for a in range(len(spec["axes"])):
-        if a not in sp and not any(c["type"] == "dim" and c["axes"] == [a] for c in spec["cons"]):
+        if a not in sp and not any(c["type"] == "dim" and c["axes"] == [a] for c in spec["cons"]) and \
+                not any(scalar_string_aux(spec, c) and c["axes"] == [a] for c in spec["cons"]):
             return False
     for cm in spec["cms"]:
         if cm["quals"] or any(not isinstance(a, int) for a in cm["axes"]):
@@ -1055,7 +1332,6 @@ def g_ostr(x):
 
 
 def g_skel(spec, opts):
-    char = opts.get("fmt", "NETCDF4") != "NETCDF4" or opts.get("string") is False
     axes = glist(spec["axes"], lambda a: "{| a_size := %s; a_ncdim := %s; a_unlim := %s |}" % (
         gz(a["size"]), g_ostr(a["ncdim"]), gbool(a["unlimited"])))
     T = {"dim": "CDim", "aux": "CAux", "measure": "CMeasure", "fanc": "CFanc"}
@@ -1066,7 +1342,7 @@ def g_skel(spec, opts):
         gb = "None" if not b else "(Some {| b_n := %s; b_ncvar := %s; b_ncdim := %s |})" % (
             gz(b["n"]), g_ostr(b["ncvar"]), g_ostr(b["ncdim"]))
         sl = "None"
-        if c.get("dtype") == "S" and char:
+        if c.get("dtype") == "S":      # (the model decides from fmt / string whether it is a netCDF string or char)
             n = 1
             for a in c["axes"]:
                 n *= spec["axes"][a]["size"]
@@ -1081,13 +1357,20 @@ def g_skel(spec, opts):
 
 
 def g_opts(o):
-    return "{| o_fmt := %d; o_compress := %d; o_shuffle := %s; o_fletcher32 := %s; o_endian := %d; o_chunks := %d; o_coordinates := %s |}" % (
+    return ("{| o_fmt := %d; o_compress := %d; o_shuffle := %s; o_fletcher32 := %s; o_endian := %d; o_chunks := %d; "
+            "o_coordinates := %s; o_string := %s |}") % (
         FORMATS.index(o.get("fmt", "NETCDF4")), int(o.get("compress", 0)), gbool(o.get("shuffle", True)),
         gbool(o.get("fletcher32", False)), ["native", "little", "big"].index(o.get("endian", "native")),
-        ["4 MiB", "contiguous", "1 KiB", 64].index(o.get("hdf5_chunks", "4 MiB")), gbool(o.get("coordinates", False)))
+        ["4 MiB", "contiguous", "1 KiB", 64].index(o.get("hdf5_chunks", "4 MiB")), gbool(o.get("coordinates", False)),
+        gbool(o.get("string", True)))
 
 
-MODEL_ATTRS = ("bounds", "coordinates", "cell_measures", "ancillary_variables", "cell_methods")
+MODEL_ATTRS = ("bounds", "coordinates", "cell_measures", "ancillary_variables", "cell_methods", "compress")
+
+
+def g_kind(dtype):
+    """storage kind of a netCDF variable as the reader tests it: netCDF string / char / anything else"""
+    return "KStr" if dtype == "str" else ("KChar" if dtype.startswith("S") else "KNum")
 
 
 def printable(s):
@@ -1107,9 +1390,10 @@ def raw_in_model(raw):
 
 def g_ads(raw):
     dims = glist(sorted(raw["dims"].items()), lambda kv: "(%s, (%s, %s))" % (gstr(kv[0]), gz(kv[1][0]), gbool(kv[1][1])))
-    vs = glist(list(raw["vars"].items()), lambda kv: "{| v_name := %s; v_dims := %s; v_attrs := %s |}" % (
+    vs = glist(list(raw["vars"].items()), lambda kv: "{| v_name := %s; v_dims := %s; v_attrs := %s; v_kind := %s |}" % (
         gstr(kv[0]), glist(kv[1]["dims"], gstr),
-        glist(sorted((k, x) for k, x in kv[1]["attrs"].items() if k in MODEL_ATTRS), lambda p: "(%s, %s)" % (gstr(p[0]), gstr(p[1])))))
+        glist(sorted((k, x) for k, x in kv[1]["attrs"].items() if k in MODEL_ATTRS), lambda p: "(%s, %s)" % (gstr(p[0]), gstr(p[1]))),
+        g_kind(kv[1]["dtype"])))
     return "{| d_dims := %s; d_vars := %s |}" % (dims, vs)
 
 
@@ -1126,7 +1410,18 @@ def g_rskel(r):
 def correspondence(chk, cases, rows, explained, stats):
     wl, wc, rl, rc = [], [], [], []
     for c, r in zip(cases, rows):
-        if r is None or "raw" not in r or "spec" not in c:
+        if r is None or "raw" not in r:
+            continue
+        if "cs" in c:
+            # a field compressed by gathering: the file (list variable with a `compress' attribute) against the
+            # reader model's implied dimensions
+            if c["cs"]["ckind"] == "gathered" and raw_in_model(r["raw"]) and "rskel" in r and r.get("n_read") == 1 and \
+                    all(v["dtype"] != "str" and not v["dtype"].startswith("S") for v in r["raw"]["vars"].values()):
+                rl.append("(%s, [%s])" % (g_ads(r["raw"]), g_rskel(r["rskel"])))
+                rc.append((c, r))
+                stats["model-read-gathered"] = stats.get("model-read-gathered", 0) + 1
+            continue
+        if "spec" not in c:
             continue
         spec, opts = c["spec"], c["options"]
         names_ok = all(printable(x) for x in json.dumps(spec))
@@ -1141,8 +1436,17 @@ def correspondence(chk, cases, rows, explained, stats):
     n = 0
     if wl:
         ol = ["(%s, %s)" % (g_opts(c["options"]), g_skel(c["spec"], c["options"])) for c, r in wc]
-        bad0 = lib.coq_bad_indices("C01", REQ, "check_wf", ol, chunk=100)
-        stats["model-guard-cases"] = len(ol)
+        # (skeletons with a string-valued scalar auxiliary coordinate are outside the proved guard wf; for them the
+        # model round trip is evaluated case by case: check_types)
+        gi = [i for i, (c, r) in enumerate(wc) if not has_scalar_string_aux(c["spec"])]
+        bad0 = [gi[k] for k in lib.coq_bad_indices("C01", REQ, "check_wf", [ol[i] for i in gi], chunk=100)]
+        stats["model-guard-cases"] = len(gi)
+        stats["model-scalar-string-cases"] = len(ol) - len(gi)
+        badt = lib.coq_bad_indices("C01", REQ, "check_types", ol, chunk=100)
+        for i in badt[:10]:
+            c, r = wc[i]
+            chk.fail("correspondence", "model-roundtrip-types", "read_skel (write_skel o f) does not have the constructs of the skeleton, type by type",
+                     {"correspondence": "C01.Run.check_types", "input": {k: v for k, v in c.items() if k != "i"}})
         for i in bad0[:10]:
             c, r = wc[i]
             chk.fail("correspondence", "model-guard", "an in-fragment case lies outside the guard (wf, dim_unique) of C01_roundtrip_checked",
@@ -1206,8 +1510,11 @@ def run(chk, model_ok):
             continue
         sp = c["spec"]
         tags = ["kind:" + sp["kind"], "axes:%d" % len(sp["axes"])]
-        if c.get("fam") in ("square", "validity"):
+        if c.get("fam") in ("square", "validity", "scalar-string") or str(c.get("fam", "")).startswith("matrix:"):
             tags.append("family:" + c["fam"])
+        if has_scalar_string_aux(sp):
+            tags.append("string-scalar-coordinate:%s" % ("netcdf-string" if c["options"].get("fmt", "NETCDF4") == "NETCDF4"
+                                                         and c["options"].get("string", True) else "char"))
         for x in sp["cons"] + ([sp["data"]] if sp.get("data") else []):
             if x.get("vp"):
                 tags.append("validity:%s:%s" % (x["vp"]["kind"], x["vp"]["rel"]))
@@ -1250,6 +1557,17 @@ def run(chk, model_ok):
         "features": feats,
         "outcomes": stats,
         "exhaustive": False,
+        "option_family_matrix": {
+            "families": FAMILIES,
+            "write_options": {k: [str(x) for x in v] for k, v in W_OPTS},
+            "read_options": {k: [str(x) for x in v] for k, v in R_OPTS},
+            "pairs_covered": {fam: len(MATRIX_PAIRS.get(fam, [])) for fam in FAMILIES},
+            "pairs_possible_per_family": sum(len(v) for _, v in W_OPTS + R_OPTS),
+            "tier_rule": "quick: every (option value, family) pair at least once; thorough: every (value of option A, value of "
+                         "option B, family) triple for A != B, but those the netCDF / HDF5 libraries exclude",
+            "combinations_excluded_by_library_rules": len(MATRIX_PAIRS.get("illegal", [])),
+            "matrix_cases": sum(1 for c in cases if str(c.get("fam", "")).startswith("matrix:")),
+        },
     })
     chk.assumptions += [
         "HDF5 / netCDF-C / netCDF4-python are trusted to return the bytes and attributes that were stored",
